@@ -1390,6 +1390,68 @@ theorem nested_coords_add_T (chain : List LocT) (hne : chain ≠ [])
       · rw [hy]; simp [hl]
       · rw [hz]; simp [hl]
 
+/-! #### native coordinates (`nativeCoords=True`) -/
+
+/-- without the flag `globalCoordsTN` is `globalCoordsT` -/
+theorem globalCoordsTN_false (chain : List LocT) : globalCoordsTN false chain = globalCoordsT chain := by
+  induction chain with
+  | nil => rfl
+  | cons l rest ih =>
+    cases rest with
+    | nil => cases l <;> rfl
+    | cons l2 rest2 =>
+      have hl : l.localCoordsN false = l.localCoords := by cases l <;> rfl
+      simp only [globalCoordsTN, globalCoordsT, hl] at ih ⊢
+      rw [ih]
+
+/-- **hex / Cartesian / axial / free-coordinate chains give the same answer with and without the flag** -/
+theorem native_flag_irrelevant_without_trz (native : Bool) (chain : List Loc) :
+    globalCoordsTN native (chain.map LocT.plain) = globalCoords chain := by
+  induction chain with
+  | nil => rfl
+  | cons l rest ih =>
+    cases rest with
+    | nil => rfl
+    | cons l2 rest2 =>
+      simp only [List.map_cons, globalCoordsTN, globalCoords, LocT.localCoordsN] at ih ⊢
+      rw [ih]
+
+/-- **global coordinates in EITHER coordinate kind are the sum, along the whole ancestor chain, of the local
+coordinates in that SAME kind** (the flag reaches every ancestor): at any depth, a θ-R-Z level at any height of the
+chain contributes (θ, r, z) with the flag and (r·cos θ, r·sin θ, z) without -/
+theorem nested_coords_add_TN (native : Bool) (chain : List LocT) (hne : chain ≠ [])
+    (hall : ∀ l ∈ chain, ∃ x y z, l.localCoordsN native = some [x, y, z]) :
+    ∃ x y z, globalCoordsTN native chain = some [x, y, z] ∧
+      x = (chain.map (fun l => (((l.localCoordsN native).getD [])[0]?).getD 0)).sum ∧
+      y = (chain.map (fun l => (((l.localCoordsN native).getD [])[1]?).getD 0)).sum ∧
+      z = (chain.map (fun l => (((l.localCoordsN native).getD [])[2]?).getD 0)).sum := by
+  induction chain with
+  | nil => exact absurd rfl hne
+  | cons l rest ih =>
+    obtain ⟨x, y, z, hl⟩ := hall l (List.mem_cons_self)
+    cases rest with
+    | nil =>
+      refine ⟨x, y, z, ?_, ?_, ?_, ?_⟩ <;> simp [globalCoordsTN, hl]
+    | cons l2 rest2 =>
+      obtain ⟨x', y', z', hg, hx, hy, hz⟩ := ih (by simp) (fun m hm => hall m (List.mem_cons_of_mem _ hm))
+      refine ⟨x + x', y + y', z + z', ?_, ?_, ?_, ?_⟩
+      · simp [globalCoordsTN, hl, hg, vadd]
+      · rw [hx]; simp [hl]
+      · rw [hy]; simp [hl]
+      · rw [hz]; simp [hl]
+
+/-- the native contribution of a θ-R-Z level is its mesh coordinate (θ, r, z) itself -/
+theorem trz_level_local_native (tau cs sn : Rat) (g : G) (i j k : Int) (v : List Rat) :
+    (LocT.trz tau cs sn g i j k).localCoordsN true = some v ↔
+      ∃ θ r z, getCoordinates g [i, j, k] = some [θ, r, z] ∧ 0 ≤ θ ∧ θ ≤ tau ∧ v = [θ, r, z] := by
+  have := trz_coordinates_spec tau cs sn g [i, j, k] v true
+  simpa [LocT.localCoordsN] using this
+
+example : globalCoordsTN true [.plain (.index (some (axialGrid [0, 10, 20] [0, 0, 0] [(0, 1), (0, 1), (0, 1)])) 0 0 1),
+    .trz 7 (3/5) (4/5) (boundsGrid [0, 1, 2, 3] [0, 2, 5] [0, 10, 20, 45] [0, 0, 0] [] "" "") 1 1 2,
+    .plain (.coord none 100 200 300)] = some [100 + 3/2, 200 + 7/2, 300 + 65/2 + 15] := by
+  decide +kernel
+
 /-- the contribution of a θ-R-Z level: defined exactly when the mesh coordinates exist with 0 ≤ θ ≤ τ, and then
 (r·cos θ, r·sin θ, z) -/
 theorem trz_level_local (tau cs sn : Rat) (g : G) (i j k : Int) (v : List Rat) :
@@ -1447,99 +1509,85 @@ private theorem pad0_eq (w : Nat) (ds : List Nat) :
     pad0 w ds = (List.replicate (w - ds.length) 0 ++ ds).map Sym.dig := by
   simp [pad0, List.map_append, List.map_replicate]
 
-private theorem symDigits_map (l : List Nat) : symDigits (l.map Sym.dig) = some l := by
-  induction l with
+/-- scanning a run of digits -/
+private theorem labelScan_digits (ds : List Nat) (rest : List Sym) (neg : Bool) (v : Nat) :
+    labelScan (ds.map Sym.dig ++ rest) (.num neg v) =
+      labelScan rest (.num neg (ds.foldl (fun acc d => acc * 10 + d) v)) := by
+  induction ds generalizing v with
   | nil => rfl
-  | cons d ds ih => simp [symDigits, ih]
+  | cons d r ih => simp only [List.map_cons, List.cons_append, labelScan, List.foldl_cons]; exact ih _
 
-/-- a run of digits (no dash) -/
-private def noDash (l : List Sym) : Prop := ∀ s ∈ l, s ≠ Sym.dash
+private theorem foldl_from (d0 : Nat) (ds : List Nat) :
+    ds.foldl (fun acc d => acc * 10 + d) d0 = parseDigits (d0 :: ds) := by
+  simp [parseDigits]
 
-private theorem noDash_pad0 (w : Nat) (ds : List Nat) : noDash (pad0 w ds) := by
-  intro s hs
-  rw [pad0_eq] at hs
-  obtain ⟨d, _, rfl⟩ := List.mem_map.mp hs
-  exact fun h => Sym.noConfusion h
+/-- a zero-padded rendering is a non-empty run of digits with the right value -/
+private theorem pad0_digits (w n : Nat) :
+    ∃ d0 ds, pad0 w (render n) = (d0 :: ds).map Sym.dig ∧ parseDigits (d0 :: ds) = n := by
+  have hne := render_ne_nil n
+  rw [pad0_eq]
+  cases h : List.replicate (w - (render n).length) 0 ++ render n with
+  | nil =>
+    have h2 := List.append_eq_nil_iff.mp h
+    exact absurd h2.2 hne
+  | cons d0 ds =>
+    refine ⟨d0, ds, rfl, ?_⟩
+    rw [← h, parseDigits_zeros, parseDigits_render]
 
-private theorem pyInt_pad0 (w n : Nat) : pyInt (pad0 w (render n)) = some (n : Int) := by
-  have hne : pad0 w (render n) ≠ [] := by
-    rw [pad0_eq]
-    intro h
-    have := List.map_eq_nil_iff.mp h
-    have h2 := List.append_eq_nil_iff.mp this
-    exact render_ne_nil n h2.2
-  unfold pyInt
-  split
-  · rename_i h; exact absurd h hne
-  · rw [pad0_eq, symDigits_map, Option.map_some, parseDigits_zeros, parseDigits_render]
+/-- **one formatted index is scanned back to itself, whatever follows** (sign included) -/
+private theorem labelScan_fmt03 (n : Int) (tail : List Sym) :
+    labelScan (fmt03 n ++ tail) .start = labelScan tail (.num (decide (n < 0)) n.natAbs) := by
+  unfold fmt03
+  by_cases h : n < 0
+  · obtain ⟨d0, ds, he, hv⟩ := pad0_digits 2 n.natAbs
+    simp only [h, if_true, List.cons_append, labelScan, he, List.map_cons, decide_true]
+    rw [labelScan_digits, foldl_from, hv]
+  · obtain ⟨d0, ds, he, hv⟩ := pad0_digits 3 n.toNat
+    have e : n.toNat = n.natAbs := by omega
+    simp only [h, if_false, he, List.map_cons, List.cons_append, labelScan, decide_false]
+    rw [labelScan_digits, foldl_from, hv, e]
 
-private theorem splitDash_noDash (a : List Sym) (h : noDash a) : splitDash a = [a] := by
-  induction a with
-  | nil => rfl
-  | cons s r ih =>
-    have hs : s ≠ Sym.dash := h s (List.mem_cons_self)
-    have hr : noDash r := fun t ht => h t (List.mem_cons_of_mem _ ht)
-    cases s with
-    | dash => exact absurd rfl hs
-    | dig d => simp [splitDash, ih hr]
-    | other => simp [splitDash, ih hr]
+private theorem signedVal_natAbs (n : Int) : signedVal (decide (n < 0)) n.natAbs = n := by
+  unfold signedVal
+  by_cases h : n < 0
+  · rw [decide_eq_true h]; simp only [if_true]; omega
+  · rw [decide_eq_false h]; simp only [Bool.false_eq_true, if_false]; omega
 
-private theorem splitDash_append (a b : List Sym) (h : noDash a) :
-    splitDash (a ++ Sym.dash :: b) = a :: splitDash b := by
-  induction a with
-  | nil => rfl
-  | cons s r ih =>
-    have hs : s ≠ Sym.dash := h s (List.mem_cons_self)
-    have hr : noDash r := fun t ht => h t (List.mem_cons_of_mem _ ht)
-    cases s with
-    | dash => exact absurd rfl hs
-    | dig d => simp [splitDash, ih hr]
-    | other => simp [splitDash, ih hr]
-
-private theorem fmt03_nonneg (n : Nat) : fmt03 (n : Int) = pad0 3 (render n) := by
-  simp [fmt03]
-
-/-- **labels decode to the indices they were made from**, for all non-negative indices of any size (ring / position
-≥ 100 or ≥ 1000 widen the field, they do not break it), with and without the axial index -/
-theorem label_roundtrip (a b c : Nat) :
-    (getLabel [(a : Int), b, c]).bind labelToIndices = some [some (a : Int), some (b : Int), some (c : Int)] ∧
-    (getLabel [(a : Int), b]).bind labelToIndices = some [some (a : Int), some (b : Int), none] := by
-  have ha := noDash_pad0 3 (render a)
-  have hb := noDash_pad0 3 (render b)
-  have hc := noDash_pad0 3 (render c)
+/-- **labels decode to the indices they were made from, for ALL integer indices** — any size (ring / position ≥ 100
+or ≥ 1000 widen the field), and any sign (Cartesian cells left of / below the centre, negative axial indices: the
+decoder repaired by 9ee1acd reads a dash that opens the label or follows a separator as a sign) — with and without
+the axial index -/
+theorem label_roundtrip (a b c : Int) :
+    (getLabel [a, b, c]).bind labelToIndices = some [some a, some b, some c] ∧
+    (getLabel [a, b]).bind labelToIndices = some [some a, some b, none] := by
   constructor
-  · simp only [getLabel, Option.bind_some, labelToIndices, fmt03_nonneg, List.append_assoc, List.cons_append]
-    rw [splitDash_append _ _ ha, splitDash_append _ _ hb, splitDash_noDash _ hc]
-    simp [List.mapM_cons, pyInt_pad0]
-  · simp only [getLabel, Option.bind_some, labelToIndices, fmt03_nonneg]
-    rw [splitDash_append _ _ ha, splitDash_noDash _ hb]
-    simp [List.mapM_cons, pyInt_pad0]
+  · simp only [getLabel, Option.bind_some, labelToIndices, List.append_assoc, List.cons_append]
+    rw [labelScan_fmt03]; simp only [labelScan]
+    rw [labelScan_fmt03]; simp only [labelScan]
+    have := labelScan_fmt03 c []
+    rw [List.append_nil] at this
+    rw [this]; simp [labelScan, signedVal_natAbs]
+  · simp only [getLabel, Option.bind_some, labelToIndices]
+    rw [labelScan_fmt03]; simp only [labelScan]
+    have := labelScan_fmt03 b []
+    rw [List.append_nil] at this
+    rw [this]; simp [labelScan, signedVal_natAbs]
 
-/-- hence labels of non-negative index triples are injective -/
-theorem label_injective (a b c a' b' c' : Nat) (h : getLabel [(a : Int), b, c] = getLabel [(a' : Int), b', c']) :
+/-- hence labels are injective on index triples -/
+theorem label_injective (a b c a' b' c' : Int) (h : getLabel [a, b, c] = getLabel [a', b', c']) :
     a = a' ∧ b = b' ∧ c = c' := by
   have h1 := (label_roundtrip a b c).1
   have h2 := (label_roundtrip a' b' c').1
   rw [h] at h1
   rw [h1] at h2
   simp only [Option.some.injEq, List.cons.injEq, and_true] at h2
-  omega
+  exact ⟨h2.1, h2.2.1, h2.2.2⟩
 
-/-- **a NEGATIVE first index makes the label undecodable** (the model reproduces the defect of the real pair:
-`f"{-1:03d}"` is "-01", and `"-01-002".split("-")` starts with an empty piece that `int` refuses) — Cartesian
-cells left of / below the centre, hex cells never (ring, pos ≥ 1) -/
-theorem label_negative_first_undecodable (i : Int) (h : i < 0) (rest : List Int) (l : List Sym)
-    (hl : getLabel (i :: rest) = some l) : labelToIndices l = none := by
-  have hstart : ∀ tail, fmt03 i ++ tail = Sym.dash :: (pad0 2 (render i.natAbs) ++ tail) := by
-    intro tail; simp [fmt03, h]
-  have key : ∀ tail, labelToIndices (fmt03 i ++ tail) = none := by
-    intro tail
-    rw [hstart]
-    simp [labelToIndices, splitDash, List.mapM_cons, pyInt]
-  match rest, hl with
-  | [j], hl => simp only [getLabel, Option.some.injEq] at hl; rw [← hl]; exact key _
-  | [j, k], hl => simp only [getLabel, Option.some.injEq] at hl; rw [← hl, List.append_assoc]; exact key _
-  | j :: k :: m :: r, hl => simp only [getLabel, Option.some.injEq] at hl; rw [← hl]; exact key _
+/-- what is NOT a label is refused: an empty label, a lone or doubled sign, a trailing separator -/
+theorem label_malformed_refused (l : List Sym) :
+    labelToIndices [] = none ∧ labelToIndices [.dash] = none ∧ labelToIndices (.dash :: .dash :: l) = none ∧
+    labelToIndices [.dig 1, .dash] = none ∧ labelToIndices (.other :: l) = none := by
+  refine ⟨rfl, rfl, ?_, rfl, ?_⟩ <;> simp [labelToIndices, labelScan]
 
 /-- `HexGrid.getLabel(indices)`: `Grid.getLabel` of (ring, pos) resp. (ring, pos, k) with
 (ring, pos) = `getRingPos(indices)` = `Hex.toRingPos i j` -/
@@ -1563,20 +1611,20 @@ theorem hex_label_roundtrip (i j : Int) (k : Nat) :
     have e2 : (Hex.toRingPos i j).2 = (((Hex.toRingPos i j).2.toNat : Nat) : Int) := by omega
     simp only [hexLabel]
     rw [e1, e2]
-    simpa using (label_roundtrip (Hex.toRingPos i j).1.toNat (Hex.toRingPos i j).2.toNat k).1
+    simpa using (label_roundtrip ((Hex.toRingPos i j).1.toNat : Int) ((Hex.toRingPos i j).2.toNat : Int) (k : Int)).1
   · have e1 : (Hex.toRingPos i j).1 = (((Hex.toRingPos i j).1.toNat : Nat) : Int) := by omega
     have e2 : (Hex.toRingPos i j).2 = (((Hex.toRingPos i j).2.toNat : Nat) : Int) := by omega
     simp only [hexLabel]
     rw [e1, e2]
-    simpa using (label_roundtrip (Hex.toRingPos i j).1.toNat (Hex.toRingPos i j).2.toNat 0).2
+    simpa using (label_roundtrip ((Hex.toRingPos i j).1.toNat : Int) ((Hex.toRingPos i j).2.toNat : Int) 0).2
   · have e1 : (((Hex.toRingPos i j).1.toNat : Nat) : Int) = (Hex.toRingPos i j).1 := by omega
     have e2 : (((Hex.toRingPos i j).2.toNat : Nat) : Int) = (Hex.toRingPos i j).2 := by omega
     rw [e1, e2]; exact Hex.ringpos_left_inv i j
 
 example : (getLabel [100, 1000, 7]).bind labelToIndices = some [some 100, some 1000, some 7] := by
   have := (label_roundtrip 100 1000 7).1; simpa using this
-example : getLabel [-1, 2, 0] = some [.dash, .dig 0, .dig 1, .dash, .dig 0, .dig 0, .dig 2, .dash, .dig 0, .dig 0, .dig 0] ∧
-    labelToIndices [.dash, .dig 0, .dig 1, .dash, .dig 0, .dig 0, .dig 2, .dash, .dig 0, .dig 0, .dig 0] = none := by
+example : (getLabel [-1, 2, 0]).bind labelToIndices = some [some (-1), some 2, some 0] ∧
+    (getLabel [1, -2]).bind labelToIndices = some [some 1, some (-2), none] := by
   decide
 
 /-! ### non-vacuity -/
